@@ -31,6 +31,7 @@ package shard
 //@   loop 1 invariant rangeindex >= -1 && rangeindex < len(finalResults)
 //@   loop 2 invariant rangeindex >= -1 && rangeindex < len(searchRequest.Select) && i >= 0 && i < len(finalResults)
 //@   loop 3 invariant rangeindex >= -1 && rangeindex < len(segments) && len(res) > 0
+//@   loop 3 invariant forall(k, 0, len(segments), forall(j2, 0, len(segments[k]), segments[k][j2] != '.'))
 
 // ---- all-or-nothing write batches: the cache transaction is finished exactly once and with the
 // right flag, and the storage error is never swallowed (property C07, sequential part) ----
